@@ -537,7 +537,13 @@ func runGbSession(c GbCase) *pbt.Violation {
 	tickAt := len(pk) / 2
 	if c.Udp {
 		addr := fmt.Sprintf("127.0.0.1:%d", resp.Data.Port)
-		sent := uint64(0)
+		counted := func() uint64 {
+			if st := s.SM.StatGroup(gbStream); st != nil {
+				return st.StatPub.ReadBytesSum
+			}
+			return 0
+		}
+		silent := 0
 		for i, raw := range pk {
 			if i == tickAt {
 				if v := runTicks(s, fd, c.Ticks); v != nil {
@@ -548,18 +554,26 @@ func runGbSession(c GbCase) *pbt.Violation {
 			if err != nil {
 				lalclient.Harness("c13: dial gb28181 udp %s: %v", addr, err)
 			}
+			before := counted()
 			n, _ := uc.Write(raw)
 			_ = uc.Close()
-			sent += uint64(n)
-			// paced by the session's byte counter (it counts a datagram before parsing it); a lost datagram or a
-			// session that lal has disposed meanwhile costs 200 ms, nothing else
-			deadline := time.Now().Add(200 * time.Millisecond)
-			for n > 0 && time.Now().Before(deadline) {
-				st := s.SM.StatGroup(gbStream)
-				if st == nil || st.StatPub.ReadBytesSum >= sent {
+			// paced by the session's byte counter (it counts a datagram — as much of it as fits lal's 1500-byte read
+			// buffer — before parsing it); a lost datagram or a session that lal has disposed meanwhile costs 100 ms,
+			// nothing else
+			deadline := time.Now().Add(100 * time.Millisecond)
+			acked := n == 0 || silent >= 3 // three datagrams in a row uncounted: lal has disposed the session
+			for !acked && time.Now().Before(deadline) {
+				if counted() > before {
+					acked = true
 					break
 				}
 				time.Sleep(100 * time.Microsecond)
+			}
+			if acked && silent < 3 {
+				silent = 0
+			} else {
+				silent++
+				time.Sleep(50 * time.Microsecond)
 			}
 			if n == 0 {
 				time.Sleep(300 * time.Microsecond)
